@@ -23,6 +23,8 @@ pub struct ExploreOpts {
     pub audit_every: u64,
     /// call back on every distinct journal (journal mode) — used by Engine C
     pub collect_journals: bool,
+    /// record the state graph and look for livelocks (terminal SCCs of the fault-free sub-graph)
+    pub check_livelock: bool,
 }
 
 #[derive(Default)]
@@ -48,14 +50,19 @@ pub struct ExploreResult {
     pub cells: BTreeMap<String, u64>,
     /// distinct journals (as tag sequences) with one history each
     pub journals: BTreeMap<Vec<String>, Vec<Ev>>,
-    /// edges of the state graph that are not deviations (for the livelock check)
-    pub edges: Vec<(u128, u128, bool)>,
-    pub quiescent_keys: HashSet<u128>,
+    /// edges of the state graph (from, to, event) — only with `check_livelock`
+    pub edges: Vec<(u128, u128, Ev)>,
+    /// BFS tree: state -> (parent, event)
+    pub parents: std::collections::HashMap<u128, (u128, Ev)>,
+    pub root_key: u128,
+    pub livelock_sccs: u64,
+    pub cyclic_sccs_with_exit: u64,
 }
 
 struct Node {
     history: Vec<Ev>,
     mon: MonState,
+    key: u128,
 }
 
 pub enum StepOutcome {
@@ -198,9 +205,11 @@ pub fn explore(sc: &Scenario, opts: &ExploreOpts) -> ExploreResult {
         }
         sh.visited.insert(key);
         sh.result.states = 1;
+        sh.result.root_key = key;
         sh.next.push(Node {
             history: vec![],
             mon: mon.s.clone(),
+            key,
         });
         sys.dispose();
     }
@@ -244,6 +253,7 @@ pub fn explore(sc: &Scenario, opts: &ExploreOpts) -> ExploreResult {
                 let audit_every = opts.audit_every;
                 let deadline = opts.deadline;
                 let collect_journals = opts.collect_journals;
+                let check_livelock = opts.check_livelock;
                 let max_states = sc.max_states;
                 scope.spawn(move || {
                     tako::verif::set_sched_memo(true);
@@ -273,6 +283,7 @@ pub fn explore(sc: &Scenario, opts: &ExploreOpts) -> ExploreResult {
                             check_panics,
                             audit_every,
                             collect_journals,
+                            check_livelock,
                             node,
                             &shared,
                             &mut local_transitions,
@@ -288,7 +299,166 @@ pub fn explore(sc: &Scenario, opts: &ExploreOpts) -> ExploreResult {
     let mut result = std::mem::take(&mut sh.result);
     result.scenario = sc.name.clone();
     result.depth_bound = sc.depth_bound;
+    drop(sh);
+    if opts.check_livelock && !result.capped && !result.timed_out && sc.depth_bound == 0 {
+        find_livelocks(sc, &mut result);
+    }
+    result.edges = Vec::new();
+    result.parents = Default::default();
     result
+}
+
+/// Tarjan over the fault-free sub-graph (edges that are not deviations). A strongly connected
+/// component with a cycle and without any fault-free edge leaving it is a livelock under
+/// every scheduler.
+fn find_livelocks(sc: &Scenario, r: &mut ExploreResult) {
+    use std::collections::HashMap;
+    let mut index_of: HashMap<u128, usize> = HashMap::new();
+    let mut keys: Vec<u128> = Vec::new();
+    let mut id = |k: u128, keys: &mut Vec<u128>| -> usize {
+        *index_of.entry(k).or_insert_with(|| {
+            keys.push(k);
+            keys.len() - 1
+        })
+    };
+    let mut adj: Vec<Vec<(usize, Ev)>> = Vec::new();
+    for (a, b, ev) in &r.edges {
+        if ev.is_deviation() {
+            continue;
+        }
+        let ia = id(*a, &mut keys);
+        let ib = id(*b, &mut keys);
+        let n = keys.len();
+        if adj.len() < n {
+            adj.resize(n, Vec::new());
+        }
+        adj[ia].push((ib, *ev));
+    }
+    let n = keys.len();
+    adj.resize(n, Vec::new());
+    // iterative Tarjan
+    let mut idx = vec![usize::MAX; n];
+    let mut low = vec![0usize; n];
+    let mut on_stack = vec![false; n];
+    let mut stack: Vec<usize> = Vec::new();
+    let mut comp = vec![usize::MAX; n];
+    let mut n_comp = 0;
+    let mut counter = 0;
+    for start in 0..n {
+        if idx[start] != usize::MAX {
+            continue;
+        }
+        let mut call: Vec<(usize, usize)> = vec![(start, 0)];
+        while let Some(&mut (v, ref mut ei)) = call.last_mut() {
+            if *ei == 0 {
+                idx[v] = counter;
+                low[v] = counter;
+                counter += 1;
+                stack.push(v);
+                on_stack[v] = true;
+            }
+            if *ei < adj[v].len() {
+                let w = adj[v][*ei].0;
+                *ei += 1;
+                if idx[w] == usize::MAX {
+                    call.push((w, 0));
+                } else if on_stack[w] {
+                    low[v] = low[v].min(idx[w]);
+                }
+            } else {
+                if low[v] == idx[v] {
+                    loop {
+                        let w = stack.pop().unwrap();
+                        on_stack[w] = false;
+                        comp[w] = n_comp;
+                        if w == v {
+                            break;
+                        }
+                    }
+                    n_comp += 1;
+                }
+                call.pop();
+                if let Some(&mut (u, _)) = call.last_mut() {
+                    low[u] = low[u].min(low[v]);
+                }
+            }
+        }
+    }
+    let mut size = vec![0usize; n_comp];
+    let mut has_cycle = vec![false; n_comp];
+    let mut has_exit = vec![false; n_comp];
+    for v in 0..n {
+        size[comp[v]] += 1;
+        for (w, _) in &adj[v] {
+            if comp[*w] == comp[v] {
+                if *w == v || size[comp[v]] > 0 {
+                    // marks self loops now; multi-state components are marked below
+                    if *w == v {
+                        has_cycle[comp[v]] = true;
+                    }
+                }
+            } else {
+                has_exit[comp[v]] = true;
+            }
+        }
+    }
+    for c in 0..n_comp {
+        if size[c] > 1 {
+            has_cycle[c] = true;
+        }
+    }
+    for c in 0..n_comp {
+        if !has_cycle[c] {
+            continue;
+        }
+        if has_exit[c] {
+            r.cyclic_sccs_with_exit += 1;
+            continue;
+        }
+        r.livelock_sccs += 1;
+        // a state of the component and the history that reaches it
+        let v = (0..n).find(|v| comp[*v] == c).unwrap();
+        let mut history: Vec<Ev> = Vec::new();
+        let mut k = keys[v];
+        while k != r.root_key {
+            let Some((p, ev)) = r.parents.get(&k) else { break };
+            history.push(*ev);
+            k = *p;
+        }
+        history.reverse();
+        let mut kinds: BTreeSet<String> = BTreeSet::new();
+        for u in 0..n {
+            if comp[u] == c {
+                for (w, ev) in &adj[u] {
+                    if comp[*w] == c {
+                        let name = format!("{ev:?}");
+                        kinds.insert(name.split('(').next().unwrap_or("").to_string());
+                    }
+                }
+            }
+        }
+        let site = kinds.iter().cloned().collect::<Vec<_>>().join("+");
+        let v = Violation {
+            property: "C02".into(),
+            clause: "livelock".into(),
+            site,
+            detail: format!(
+                "{} states form a cycle that no fault-free event leaves (events in the cycle: {:?}); reached by the recorded history",
+                size[c], kinds
+            ),
+            engine: "sim".into(),
+            replay: json!({
+                "engine": "sim",
+                "scenario": sc,
+                "history": history,
+                "history_text": history.iter().map(|e| format!("{e:?}")).collect::<Vec<_>>(),
+                "livelock": true,
+            }),
+        };
+        if !r.violations.iter().any(|x| x.signature() == v.signature()) {
+            r.violations.push(v);
+        }
+    }
 }
 
 #[allow(clippy::too_many_arguments)]
@@ -299,6 +469,7 @@ fn expand(
     check_panics: bool,
     audit_every: u64,
     collect_journals: bool,
+    check_livelock: bool,
     node: Node,
     shared: &Arc<Mutex<Shared>>,
     local_transitions: &mut u64,
@@ -382,11 +553,18 @@ fn expand(
                     sh.result.journals.entry(tags).or_insert_with(|| history.clone());
                 }
                 let is_new = sh.visited.insert(key);
+                if check_livelock {
+                    sh.result.edges.push((node.key, key, *ev));
+                    if is_new {
+                        sh.result.parents.insert(key, (node.key, *ev));
+                    }
+                }
                 if is_new {
                     sh.result.states += 1;
                     sh.next.push(Node {
                         history: history.clone(),
                         mon: mon.s.clone(),
+                        key,
                     });
                 }
                 let n = sh.result.transitions;
